@@ -4,7 +4,7 @@
      C01_fragment_preservation -- semantic preservation of the backend model (Back/IR.v `lower` + the AST
      twin Pres/EmitAst.v of the text emitter Back/Emit.v) with respect to the reference interpreter
      Sem/SyltSem.v (source side) and the Lua 5.3 interpreter model Lua/LuaCore.v (target side), for the
-     computable fragment Pres/Frag.v `frag` (STAGE 4h: int/bool/string expressions, print, definitions, assignments
+     computable fragment Pres/Frag.v `frag` (STAGE 4i: int/bool/string expressions, print, definitions, assignments
      = += -= *=, if/elif/else expressions and statements, loops with break and continue, blocks, inside
      top-level functions; the outer definitions (global values and FUNCTIONS with parameters, `start` among them, in any
      order the resolver gives them),
@@ -16,7 +16,7 @@
      passed on, and LAMBDA expressions in argument position: FUNCTIONS AS ARGUMENTS; FUNCTIONS THAT RETURN FUNCTIONS -- a
      lambda as the last expression of the body is a new closure per call over that call's parameters and locals, which
      outlive the call; the returned function is passed to a parameter of function type, returned again, or named by a
-     constant  c :: mkc(0)  and then called and passed on by that name).  The Lua side runs the statements of the
+     constant  c :: mkc(0)  and then called and passed on by that name, or called where it is computed: mk(1)(2)).  The Lua side runs the statements of the
      REAL preamble.lua (Gen/GenPreamble.v, regenerated on every run) followed by the program's statements.
    WHAT IS CHECKED AT RUN TIME, per program of the tie (tools/props/c01.py):
      * component "emit_ast": LuaParse.parse_lua Lua53 (real compiler output) = ParseOk (chunk_ast code), i.e. the
@@ -901,6 +901,70 @@ Proof.
   cbn [r_final] in Hfin. destruct (o_final _); try contradiction. reflexivity.
 Qed.
 
+(* ---- a fifteenth program (stage 4i): computed callees ----
+     (mkc, adder as in the thirteenth program)
+     curry :: fn x: int -> fn int -> fn int -> int do  fn y: int -> fn int -> int do  fn z: int -> int do x*100 + y*10 + z end  end  end
+     start :: fn do
+       print(adder(3)(4))                                   -- 7
+       print(mkc(5)())                                      -- 6
+       print((fn w: int -> int do w * 2 end)(21))           -- 42
+       print(curry(1)(2)(3))                                -- 123
+     end                                                                                          *)
+Definition ex_prog15 : resolved :=
+  mkResolved
+    [mkVar 0 "print" sp0 true Const; mkVar 1 "mkc" sp0 true Const; mkVar 2 "adder" sp0 true Const; mkVar 3 "curry" sp0 true Const;
+     mkVar 4 "start" sp0 true Const; mkVar 5 "== STACK ==" sp0 false Const;
+     mkVar 6 "n" sp0 false Const; mkVar 7 "c" sp0 false Mutable; mkVar 8 "a" sp0 false Const; mkVar 9 "b" sp0 false Const;
+     mkVar 10 "x" sp0 false Const; mkVar 11 "y" sp0 false Const; mkVar 12 "z" sp0 false Const; mkVar 13 "w" sp0 false Const]
+    [SExternalDefinition "print" 0 Const (TImplied sp0) sp0;
+     SDefinition "mkc" 1 Const (TImplied sp0)
+       (EFunction "lambda" [("n"%string, 6%N, sp0, tint)] tfn0
+          [SDefinition "c" 7 Mutable tint (ERead 6 sp0) sp0;
+           SStatementExpression
+             (EFunction "lambda" [] tint
+                [SAssignment Add (ERead 7 sp0) (EInt 1 sp0) sp0; SStatementExpression (ERead 7 sp0) sp0] false sp0) sp0] false sp0) sp0;
+     SDefinition "adder" 2 Const (TImplied sp0)
+       (EFunction "lambda" [("a"%string, 8%N, sp0, tint)] tfn1
+          [SStatementExpression
+             (EFunction "lambda" [("b"%string, 9%N, sp0, tint)] tint
+                [SStatementExpression (EBinOp Add (ERead 8 sp0) (ERead 9 sp0) sp0) sp0] false sp0) sp0] false sp0) sp0;
+     SDefinition "curry" 3 Const (TImplied sp0)
+       (EFunction "lambda" [("x"%string, 10%N, sp0, tint)] (TFn [] [tint] tfn1 false sp0)
+          [SStatementExpression
+             (EFunction "lambda" [("y"%string, 11%N, sp0, tint)] tfn1
+                [SStatementExpression
+                   (EFunction "lambda" [("z"%string, 12%N, sp0, tint)] tint
+                      [SStatementExpression (EBinOp Add (EBinOp Mul (ERead 10 sp0) (EInt 100 sp0) sp0)
+                                                       (EBinOp Add (EBinOp Mul (ERead 11 sp0) (EInt 10 sp0) sp0) (ERead 12 sp0) sp0) sp0) sp0] false sp0) sp0] false sp0) sp0] false sp0) sp0;
+     SDefinition "start" 4 Const (TImplied sp0)
+       (EFunction "lambda" [] (TImplied sp0)
+          [SStatementExpression (call 0 [Resolved.ECall (call 2 [EInt 3 sp0]) [EInt 4 sp0] sp0]) sp0;
+           SStatementExpression (call 0 [Resolved.ECall (call 1 [EInt 5 sp0]) [] sp0]) sp0;
+           SStatementExpression (call 0 [Resolved.ECall (EFunction "lambda" [("w"%string, 13%N, sp0, tint)] tint
+                                                    [SStatementExpression (EBinOp Mul (ERead 13 sp0) (EInt 2 sp0) sp0) sp0] false sp0) [EInt 21 sp0] sp0]) sp0;
+           SStatementExpression (call 0 [Resolved.ECall (Resolved.ECall (call 3 [EInt 1 sp0]) [EInt 2 sp0] sp0) [EInt 3 sp0] sp0]) sp0]
+          false sp0) sp0].
+
+Example C01_example15_hypotheses :
+  frag 30 ex_prog15 = true /\
+  (exists code, lower 30 ex_prog15 = Ok code) /\
+  SyltSem.run 60 ex_prog15 = mkRun ["7"; "6"; "42"; "123"]%string ODone.
+Proof. split; [vm_compute; reflexivity | split; [eexists; vm_compute; reflexivity | vm_compute; reflexivity]]. Qed.
+
+Theorem C01_computed_callees_by_theorem code :
+  lower 30 ex_prog15 = Ok code ->
+  exists m, forall m', (m <= m')%nat ->
+    let out := LuaCore.run_block Lua53 m' (chunk_ast code) in
+    o_trace out = ["7"; "6"; "42"; "123"]%string /\ o_final out = FDone.
+Proof.
+  intros Hl.
+  assert (Hf : frag 30 ex_prog15 = true) by (vm_compute; reflexivity).
+  assert (Hr : SyltSem.run 60 ex_prog15 = mkRun ["7"; "6"; "42"; "123"]%string ODone) by (vm_compute; reflexivity).
+  destruct (C01_fragment_preservation 30 ex_prog15 code 60 _ Hf Hl Hr I) as (m & Hm).
+  exists m. intros m' Hle. specialize (Hm m' Hle). cbv zeta in *. destruct Hm as [Ht Hfin]. split; [exact Ht|].
+  cbn [r_final] in Hfin. destruct (o_final _); try contradiction. reflexivity.
+Qed.
+
 Print Assumptions C01_fragment_preservation.
 Print Assumptions C01_fragment_preservation_text.
 Print Assumptions C01_activations_own_locals_by_theorem.
@@ -910,6 +974,7 @@ Print Assumptions C01_functions_as_arguments_by_theorem.
 Print Assumptions C01_lambdas_by_theorem.
 Print Assumptions C01_returned_closures_by_theorem.
 Print Assumptions C01_function_constants_by_theorem.
+Print Assumptions C01_computed_callees_by_theorem.
 
 (* ---- source tie: the hand-written model behind these theorems mirrors the files below; the digests of their
    functions regenerated from /repo on this run equal the reviewed ones (coq/Doc/DocSrcDigest.v).  Any edit of
